@@ -6,6 +6,7 @@ pub mod c05;
 pub mod c06;
 pub mod c07;
 pub mod c08;
+pub mod c09;
 
 use crate::ctx::Ctx;
 use crate::report::Report;
@@ -20,6 +21,7 @@ pub fn dispatch(ctx: &Ctx, rep: &mut Report) -> bool {
         "C06" => c06::run(ctx, rep),
         "C07" => c07::run(ctx, rep),
         "C08" => c08::run(ctx, rep),
+        "C09" => c09::run(ctx, rep),
         _ => return false,
     }
     true
